@@ -33,8 +33,8 @@ var typeWordsB = []string{
 var fieldWordsA = []string{
 	"name", "title", "code", "label", "note", "amount", "count", "total", "owner",
 	"parent", "source", "target", "region", "weight", "height", "colour", "rank",
-	"score", "origin", "batch", "serial", "stage", "grade", "phase", "channel",
-	"vendor", "client", "agent", "route", "depot", "budget", "margin", "offset",
+	"score", "origin", "serial", "stage", "grade", "phase", "channel",
+	"client", "agent", "budget", "margin", "offset",
 }
 
 var fieldWordsB = []string{
@@ -228,7 +228,7 @@ func (g *gen) planPackages() {
 	nLocal := 1
 	if g.cfg.MaxPackages > 1 {
 		// often 2-3
-		w := []int{15, 45, 40}[:g.cfg.MaxPackages]
+		w := []int{18, 50, 32}[:g.cfg.MaxPackages]
 		nLocal = 1 + g.weighted(w)
 		if g.large {
 			nLocal = g.cfg.MaxPackages
